@@ -134,9 +134,40 @@ def parse_output(line, script):
     return res
 
 
+# cause of an injected failure: the part of the fault token after the dot (arranged on the real stack by the driver)
+CAUSES = {
+    "": "provider refuses the pushed authorization request with 4xx (login) / error parameter, bad state or missing login cookie (callback)",
+    "5": "provider endpoint (login: PAR, callback: token) answers 5xx, for the whole retry budget where there is one",
+    "m": "provider endpoint answers 2xx with a body that does not decode",
+    "t": "provider endpoint accepts the connection and never answers; the client's own 10 s timeout fires",
+    "x": "provider endpoint never answers and the request's context is cancelled after 1 s",
+    "r": "provider refuses the connection",
+    "s": "every session-store operation fails",
+    "st": "every session-store operation fails with a deadline error (context.DeadlineExceeded in the chain)",
+    "sc": "every session-store operation fails with a cancellation (context.Canceled in the chain)",
+}
+
+
+def fault_cause(f):
+    """'e500.t' -> ('e500', 't'); 'n' -> ('n', None)"""
+    if not f.startswith("e"):
+        return f, None
+    base, _, cause = f.partition(".")
+    return base, cause
+
+
+def describe_fault(f):
+    base, cause = fault_cause(f)
+    if cause is None:
+        return {"n": "no fault", "s": "no sid"}.get(f, f)
+    return "%s: %s" % (f, CAUSES.get(cause, "cause " + cause))
+
+
 def describe_item(script, it):
     if it["kind"] == "R":
         return "GET %s%s%s [%s] after %dns" % (script.base(), it["path"], "?prompt=login" if it["prompt"] else "",
-                                             {"n": "no fault", "s": "no sid"}.get(it["fault"], "fault " + it["fault"]), it["dt"])
-    return "browser follows redirects from %s%s with per-request faults %s%s" % (
-        script.base(), it["path"], ",".join(it["faults"]), " (through the provider)" if it["via"] else "")
+                                             {"n": "no fault", "s": "no sid"}.get(it["fault"], "fault " + describe_fault(it["fault"])), it["dt"])
+    causes = sorted({f for f in it["faults"] if fault_cause(f)[1]})
+    return "browser follows redirects from %s%s with per-request faults %s%s%s" % (
+        script.base(), it["path"], ",".join(it["faults"]), " (through the provider)" if it["via"] else "",
+        "".join("; " + describe_fault(f) for f in causes))
